@@ -5,6 +5,7 @@ Private pylake members (DESIGN.md C17 "Robustness against refactorings"): only K
 ._merge_tracks are called from here (anchored, no public twin; see `editor`); the builders' private shortcuts have
 public twins (see builders_tracks).  A case that cannot be built or observed answers UNREACHABLE ("?"): skipped by
 agree / oracle / nontrivial, counted in coverage.skipped_unreachable_cases."""
+import io
 import itertools
 import json
 import math
@@ -142,6 +143,11 @@ TOL_SPOT = 5e-3  # pixels, centroid refinement on noise-free interior spots (Gau
 #            unchanged library 0.09 pixel (about 1 point in 3000 above 0.02).  A quarter pixel still separates the true
 #            centre from any whole-pixel slip of the window bookkeeping.
 TOL_SPOT_EDGE = {"refine": 0.05, "gauss": 0.25}
+# Gaussian refinement with a fitting window of 3 or 4 pixels on either side, narrower than the spot (4 sigma = 4-6 pixels):
+# the noise-free expectation image is still fitted exactly by the model, so the MLE is the true centre; worst seen on the
+# unchanged library over 7000 points with window 3: 0.029 pixel (window 4: 0.009).  Windows WIDER than the spot are not
+# asserted: with 8 pixels L-BFGS-B stops early about once in 60 points (up to 0.11 pixel).
+TOL_SPOT_NARROW = 0.08
 _TMP = tempfile.mkdtemp(prefix="verif_c17_")
 
 
@@ -186,7 +192,26 @@ def prepare(case):
     return val
 
 
+def _prepare_multi(case):
+    """a group whose tracks come from several kymographs (case["k"], case["k_more"][0], ...): every track / truth entry
+    names its kymograph with "kymo"; each kymograph's image holds the spots of its own tracks only"""
+    kymotrack, _ = _kt()
+    ks = [case["k"]] + list(case["k_more"])
+    kymos = []
+    for n, k in enumerate(ks):
+        image = spot_image(case, kymo=n) if k.get("img") == "spots" else gen_image(k)
+        kymos.append(B.make_kymo(image, route="array", calibration=k.get("cal", "um"), pixel_size_um=k.get("px_um", 0.1),
+                                 line_time_s=k.get("lt", 0.125), kbp_length=k.get("kbp")))
+    group = kymotrack.KymoTrackGroup([B.make_track(kymos[tr.get("kymo", 0)], tr["t"], tr["c"], min_duration=tr.get("md"),
+                                                   counts_half_width=tr.get("hw")) for tr in case["tracks"]])
+    info = B.kymo_info(kymos[0], calibration=ks[0].get("cal", "um"))
+    return {"kymo": kymos[0], "kymos": kymos, "group": group, "info": info, "image": np.asarray(kymos[0].get_image("red")),
+            "state0": B.group_state(group)}
+
+
 def _prepare(case):
+    if case.get("k_more"):
+        return _prepare_multi(case)
     k = case["k"]
     if k.get("img") == "spots":
         image = spot_image(case)
@@ -202,11 +227,13 @@ def _prepare(case):
     return {"kymo": kymo, "group": group, "info": info, "image": np.asarray(kymo.get_image("red")), "state0": B.group_state(group)}
 
 
-def spot_image(case):
-    k = case["k"]
+def spot_image(case, kymo=0):
+    k = case["k"] if kymo == 0 else case["k_more"][kymo - 1]
     x = np.arange(k["n_pixels"], dtype=float)
     img = np.full((k["n_pixels"], k["n_lines"]), float(k.get("bg", 0.0)))
     for s in case["truth"]:
+        if s.get("kymo", 0) != kymo:
+            continue
         sig = s["sigma"]
         for t, c in zip(s["t"], s["c"]):
             img[:, t] += s["amp"] * np.exp(-0.5 * ((x - c) / sig) ** 2) / (sig * math.sqrt(2 * math.pi))
@@ -397,6 +424,12 @@ def plus_twin(group, op, n):
     return None
 
 
+def foreign_copy(kymotrack, track):
+    """a track over the same span that is not a member of any group: the public `interpolate` keeps the original
+    nodes (so every node index of the original stays valid) and always returns a new object"""
+    return track.interpolate()
+
+
 def with_aux(s, aux):
     return s + " ## " + json.dumps(aux)
 
@@ -446,7 +479,9 @@ def _impl(case, partial):
         else:
             a1 = with_aux(canon_rows(parsed), {"version": parsed["version"], "titles": parsed["titles"]})
         try:
-            g2 = kymotrack.import_kymotrackgroup_from_csv(path, prep["kymo"], "red", delimiter=case["delim"])
+            # "io": "handle" — the saved text is handed over as an open text stream (io.StringIO) instead of a path
+            src = io.StringIO(text) if case.get("io") == "handle" else path
+            g2 = kymotrack.import_kymotrackgroup_from_csv(src, prep["kymo"], "red", delimiter=case["delim"])
             st = B.group_state(g2)
             a2 = with_aux(enc_group(st), {"state": state_json(st), "orig": state_json(prep["state0"])})
         except B.Unreachable:
@@ -461,7 +496,8 @@ def _impl(case, partial):
             try:
                 path2 = os.path.join(_TMP, "rt2.csv")
                 g2.save(path2, delimiter=case["delim"], sampling_width=case["sw"], correct_origin=case["co"])
-                g3 = kymotrack.import_kymotrackgroup_from_csv(path2, prep["kymo"], "red", delimiter=case["delim"])
+                src2 = io.StringIO(open(path2).read()) if case.get("io") == "handle" else path2
+                g3 = kymotrack.import_kymotrackgroup_from_csv(src2, prep["kymo"], "red", delimiter=case["delim"])
                 st3 = B.group_state(g3)
                 a5 = with_aux(enc_group(st3), {"state": state_json(st3), "first": state_json(st)})
             except B.Unreachable:
@@ -523,6 +559,14 @@ def _impl(case, partial):
                     editor(kymotrack, prep["kymo"], "split")(group, group[op[1]], op[2], op[3])
                 elif op[0] == "m":
                     editor(kymotrack, prep["kymo"], "merge")(group, group[op[1]], op[2], group[op[3]], op[4])
+                elif op[0] == "x":
+                    # a merge in which one of the two tracks is NOT a member of the group (an equal copy of a member)
+                    ta, tb = group[op[1]], group[op[3]]
+                    if op[5] == "a":
+                        ta = foreign_copy(kymotrack, ta)
+                    else:
+                        tb = foreign_copy(kymotrack, tb)
+                    editor(kymotrack, prep["kymo"], "merge")(group, ta, op[2], tb, op[4])
                 elif op[0] == "f":
                     group.filter(minimum_length=op[1], minimum_duration=op[2])
                 elif op[0] == "i":
@@ -538,7 +582,10 @@ def _impl(case, partial):
                 errs.append(errname(e))
             states.append(state_json(B.group_state(group)))
         final = B.group_state(group)
-        return [with_aux("[" + ",".join(errs) + "] " + enc_group(final), {"states": states, "plus": plus})]
+        # the model is not told about foreign-track merges ("x"): a refused operation is the identity on the group, so the
+        # model runs the program without them; their outcome is judged by the oracle (aux "errs" has one entry per op)
+        shown = [e for op, e in zip(case["ops"], errs) if op[0] != "x"]
+        return [with_aux("[" + ",".join(shown) + "] " + enc_group(final), {"states": states, "plus": plus, "errs": errs})]
     if kind == "refine":
         prep = prepare(case)
         try:
@@ -679,13 +726,18 @@ def ops(case):
                 toks.append("i")
             elif op[0] == "r":
                 toks.append(f"r:{enc_rat(op[1])}:{enc_rat(op[2])}:{enc_rat(op[3])}:{enc_rat(op[4])}:{'T' if op[5] else 'F'}")
+            # "x" (merge with a track outside the group): not sent — refused operations are the identity (see _impl)
         return [f"c17.prog {ky} {enc_group(prep['state0'])} " + " ".join(toks)]
     if kind == "refine":
         return ["c17.refine " + enc_group(prep["state0"])]
     if kind == "refine2":
         return ["c17.refine2 " + enc_group(prep["state0"])]
     if kind == "centroid":
-        h = int(np.ceil(case["width"] / info["pixelsize"])) // 2  # _to_half_kernel_size on the same doubles
+        width = case["width"]
+        if width is None:
+            # the documented default: 0.35 um (kbp: the same length at 0.34 nm per base pair), at least three pixels
+            width = max({"um": 0.35, "kbp": 0.35 / 0.34}[case["k"]["cal"]], 3 * info["pixelsize"])
+        h = int(np.ceil(width / info["pixelsize"])) // 2  # _to_half_kernel_size on the same doubles
         return [f"c17.centroid {h} {enc_rat(CENTROID_EPS)} {enc_image_rat(prep['image'])} " + enc_group(prep["state0"])]
     if kind == "gauss":
         kymotrack, _ = _kt()
@@ -697,6 +749,10 @@ def ops(case):
                 s["min_duration"] = o["min_duration"]
         else:
             src = prep["state0"]
+        if case.get("k_more"):
+            # fitting windows of tracks from different kymographs never overlap: the model (one scan line, no image
+            # bounds) gets the tracks of kymograph n on their own stretch of that line, 2**20 pixels further along
+            src = [dict(s, c=[x + 2.0**20 * tr["kymo"] for x in s["c"]]) for s, tr in zip(src, case["tracks"])]
         return [f"c17.gauss {skip} {case['window']} F " + enc_group(src)]
     raise ValueError(kind)
 
@@ -715,6 +771,8 @@ def agree(case, i, ia, ma):
         if ia.endswith("Error") or ma.endswith("Error") or ia.startswith("bad") or ma.startswith("bad"):
             if kind == "refine" and case.get("width_invalid"):
                 return True  # track-width validation is not part of the model; judged by the oracle
+            if kind == "gauss" and case.get("strategy_invalid"):
+                return True  # an overlap strategy the function does not know: not part of the model; judged by the oracle
             return ia == ma
         if kind == "rt" and i == 0:
             ra, rm = ia[1:-1].split(","), ma[1:-1].split(",")
@@ -763,10 +821,16 @@ def agree(case, i, ia, ma):
         if kind in ("refine", "refine2", "gauss"):
             ta, mda = ia.split(" ")
             tm, mdm = ma.split(" ")
-            if ta != tm:
-                return False
             a = [None if x == "N" else _rat(x) for x in mda[1:-1].split(",")] if mda != "[]" else []
             m = [None if x == "N" else _rat(x) for x in mdm[1:-1].split(",")] if mdm != "[]" else []
+            if kind == "gauss" and gauss_any_order(case) and ta != tm:
+                # the same tracks (lines, minimum duration) in any order — only when tracks were removed (see gauss_any_order)
+                la, lm = ta[1:-1].split(";"), tm[1:-1].split(";")
+                key = lambda p: (p[0], -1 if p[1] is None else p[1])
+                dropped = len(la) < len(case["tracks"])
+                return dropped and len(la) == len(a) and len(lm) == len(m) and sorted(zip(la, a), key=key) == sorted(zip(lm, m), key=key)
+            if ta != tm:
+                return False
             return a == m
     except Exception:
         return False
@@ -1015,13 +1079,13 @@ def oracle_plus(case, ia):
 def oracle_prog(case, ia):
     a, aux = split_aux(ia[0])
     md_tol = MD_TOL_LOSSY if aux.get("lossy_md") else MD_TOL
-    errs = a.split(" ")[0][1:-1].split(",") if case["ops"] else []
+    errs = aux.get("errs") if aux.get("errs") is not None else (a.split(" ")[0][1:-1].split(",") if case["ops"] else [])
     states = aux["states"]
     lt = prepare(case)["info"]["line_time"]
     px = prepare(case)["info"]["pixelsize"]
     for n, (op, err) in enumerate(zip(case["ops"], errs)):
         pre, post = states[n], states[n + 1]
-        where = {"s": "split", "m": "merge", "f": "filter", "i": "interpolate", "r": "remove-in-rect"}[op[0]] + f": op {n} {op} "
+        where = {"s": "split", "m": "merge", "f": "filter", "i": "interpolate", "r": "remove-in-rect", "x": "merge with a track outside the group"}[op[0]] + f": op {n} {op} "
         if err != "-" and [cut(t, 0, None) for t in pre] != [cut(t, 0, None) for t in post]:
             return where + f"raised {err} but changed the group"
         if op[0] == "s":
@@ -1059,6 +1123,11 @@ def oracle_prog(case, ia):
                 del exp[j]
             if len(post) != len(exp) or not all(same_track(x, y, 1e-15) for x, y in zip(post, exp)):
                 return where + "merge does not conserve the undiscarded nodes (first part up to the start node ++ second part from the end node, others unchanged)"
+        elif op[0] == "x":
+            # merging conserves all points: a track that is not part of the group cannot be connected to one that is;
+            # the call has to be refused (the group-unchanged clause above covers a refusal that came too late)
+            if err == "-":
+                return where + "was accepted"
         elif op[0] == "f":
             _, L, D = op
             kept = []
@@ -1124,6 +1193,8 @@ def oracle_prog(case, ia):
 def spot_tol(case):
     if case.get("edge"):
         return TOL_SPOT_EDGE[case["kind"]]
+    if case.get("narrow"):
+        return TOL_SPOT_NARROW
     # Gaussian refinement stops L-BFGS-B on its default relative-reduction criterion: on noise-free interior spots it
     # is occasionally 0.01-0.02 px off (soak seed 15: 0.0156 px), centroid refinement is not iterative
     return 0.05 if case["kind"] == "gauss" else TOL_SPOT
@@ -1172,24 +1243,56 @@ def oracle_refine2(case, ia):
     return None
 
 
+def gauss_any_order(case):
+    """Gaussian refinement with overlap_strategy="skip" of a group from several kymographs: when a track loses all its
+    lines it is left out, and `_apply_to_group` then pairs the remaining tracks with the positions of OTHER tracks
+    (`zip(chain(*indices), chain(*groups))` with fewer tracks than indices): the survivors come back in a scrambled
+    order.  Reported as a finding; not a violation of this property, which is silent about that order."""
+    return bool(case.get("k_more")) and case.get("strategy") == "skip"
+
+
 def oracle_gauss(case, ia):
     a, aux = split_aux(ia[0])
     if a.endswith("Error"):
+        if case.get("strategy_invalid"):
+            return None  # refusing an unknown overlap strategy is fine; if tracks ARE returned they are judged below
         return f"Gaussian refinement raised {a}"
     st, orig = aux["state"], aux["orig"]
     if len(st) > len(orig):
         return "track-count: Gaussian refinement returned more tracks than it was given"
-    # order-preserving assignment of returned tracks to source tracks
-    j = 0
-    for r in st:
-        def fits(o):
-            ok = r["md"] == o["md"] and r["t"] and o["t"][0] <= min(r["t"]) and max(r["t"]) <= o["t"][-1]
-            if ok and case["strategy"] == "skip" and not case["missing"]:
-                # a skipped-away source track must not capture a later track's result (soak seed 20)
-                ok = set(r["t"]) <= set(o["t"])
-            return ok
+    def fits(r, o):
+        ok = r["md"] == o["md"] and r["t"] and o["t"][0] <= min(r["t"]) and max(r["t"]) <= o["t"][-1]
+        if ok and case["strategy"] == "skip" and not case["missing"]:
+            # a skipped-away source track must not capture a later track's result (soak seed 20)
+            ok = set(r["t"]) <= set(o["t"])
+        return ok
 
-        while j < len(orig) and not fits(orig[j]):
+    # Which source track a returned track belongs to: the property gives no other handle than the order of the group, so
+    # the assignment is order-preserving — except where "skip" removed tracks from a group of SEVERAL kymographs: there
+    # the unchanged library returns the survivors in another order (finding F-C17-H1, see gauss_any_order), and the
+    # property does not speak about the order of a Gaussian-refined group; then any one-to-one assignment is accepted.
+    assigned = None
+    if gauss_any_order(case) and len(st) < len(orig):
+        assigned = [None] * len(st)
+        owner = {}
+
+        def place(a, seen):
+            for b in range(len(orig)):
+                if b not in seen and fits(st[a], orig[b]):
+                    seen.add(b)
+                    if b not in owner or place(owner[b], seen):
+                        owner[b], assigned[a] = a, b
+                        return True
+            return False
+
+        for a in range(len(st)):
+            if not place(a, set()):
+                return f"span: Gaussian-refined track with lines {st[a]['t'][:12]} and minimum duration {st[a]['md']!r}: no source track (in any order) has that minimum duration and spans these lines"
+    j = 0
+    for n, r in enumerate(st):
+        if assigned is not None:
+            j = assigned[n]
+        while j < len(orig) and not fits(r, orig[j]):
             j += 1
         if j == len(orig):
             return f"span: Gaussian-refined track with lines {r['t'][:12]} and minimum duration {r['md']!r}: no remaining source track has that minimum duration and spans these lines"
@@ -1229,7 +1332,7 @@ def nontrivial(case, ia):
         return len(case["tracks"][0]["t"]) >= 1
     if kind == "prog":
         st = aux.get("states", [])
-        return any(x != y for x, y in zip(st, st[1:])) or "Error" in a
+        return any(x != y for x, y in zip(st, st[1:])) or "Error" in a or any(e != "-" for e in aux.get("errs") or [])
     if kind == "centroid":
         return True
     if kind in ("refine", "refine2", "gauss"):
@@ -1254,7 +1357,7 @@ def shrink(case):
         for op in case.get("ops", []):
             if op[0] == "s":
                 refs.add(op[1])
-            if op[0] == "m":
+            if op[0] in ("m", "x"):
                 refs.update((op[1], op[3]))
         if kind == "prog" and len(case["ops"]) > 1:
             c = dict(case)
@@ -1271,7 +1374,7 @@ def shrink(case):
                 c = dict(case)
                 c["tracks"] = trs[:i] + trs[i + 1 :]
                 yield c
-        if kind == "prog" and len(trs) > 1 and (len(trs) - 1) not in refs and all(o[0] != "m" and o[0] != "s" for o in case["ops"]):
+        if kind == "prog" and len(trs) > 1 and (len(trs) - 1) not in refs and all(o[0] not in ("m", "s", "x") for o in case["ops"]):
             c = dict(case)
             c["tracks"] = trs[:-1]
             yield c
@@ -1460,6 +1563,22 @@ def cases(tier, rng):
         yield {"stream": "malformed", "kind": "refine", "k": {"route": "array", "cal": "um", "n_lines": 8, "n_pixels": 12, "img_seed": 3, "px_um": 0.1, "lt": 0.125},
                "tracks": [{"t": [1, 3], "c": [4.0, 5.0]}], "width": w, "bias": True, "width_invalid": True}
 
+    # an overlap strategy the function does not know: refused, or whatever comes back still stays inside the spans
+    for strategy in ("", "Skip", "overlap"):
+        yield {"stream": "malformed", "kind": "gauss", "k": {"route": "array", "cal": "um", "n_lines": 8, "n_pixels": 12, "img_seed": 3, "px_um": 0.1, "lt": 0.125},
+               "tracks": [{"t": [1, 3], "c": [4.0, 5.0]}, {"t": [2, 3, 5], "c": [7.0, 7.0, 8.0]}], "window": 3, "missing": True, "strategy": strategy,
+               "strategy_invalid": True}
+    # a merge in which one of the two tracks is not a member of the group (every pair of the 3-track group, either side)
+    for i, j in itertools.product(range(3), repeat=2):
+        for side in ("a", "b"):
+            for ni, nj in ((0, 0), ([3, 1, 0][i], 0), (0, [3, 1, 0][j])):
+                c = small_group_case([["x", i, ni, j, nj, side]])
+                c["stream"] = "malformed"
+                yield c
+    c = small_group_case([["s", 0, 2, 1], ["x", 2, 1, 3, 0, "b"], ["m", 2, 1, 3, 0], ["x", 0, 0, 2, 3, "a"]])
+    c["stream"] = "malformed"
+    yield c
+
     # ---- exhaustive small scope: round trip
     shapes = list(range(len(SHAPES)))
     combos = [(a,) for a in shapes]
@@ -1539,6 +1658,30 @@ def cases(tier, rng):
               0.125 * 7, 1 / 3, 2 / 3, 1e22, 1e-22, 5e-324 * 2**60]:
         yield {"stream": "small-scope", "kind": "fmt", "x": x}
 
+    # ---- small scope: refinement of a group without tracks (no track in, no track out), every option
+    ke = {"route": "array", "cal": "um", "n_lines": 8, "n_pixels": 12, "img_seed": 3, "px_um": 0.1, "lt": 0.125}
+    for cal in ("um", "kbp", "pixel"):
+        kc = dict(ke, cal=cal, **({"kbp": 3.6} if cal == "kbp" else {}))
+        for bias in (False, True):
+            for width in (None, {"um": 0.5, "kbp": 1.5, "pixel": 5.0}[cal]):
+                yield {"stream": "small-scope", "kind": "refine", "k": kc, "tracks": [], "width": width, "bias": bias}
+        for strategy in ("ignore", "skip", "simultaneous", "multiple"):
+            for missing in (False, True):
+                yield {"stream": "small-scope", "kind": "gauss", "k": kc, "tracks": [], "window": 3, "missing": missing, "strategy": strategy}
+    # ---- small scope: the default track width (None) on one track with a gap, every calibration x pixel size
+    for cal, px_um in (("um", 0.1), ("um", 0.05), ("um", 0.08), ("um", 0.15), ("um", 0.2), ("kbp", 0.1), ("pixel", 0.1)):
+        kc = dict(ke, cal=cal, px_um=px_um, n_pixels=16, **({"kbp": 4.8} if cal == "kbp" else {}))
+        for bias in (False, True):
+            yield {"stream": "small-scope", "kind": "refine" if (bias or cal == "pixel") else "centroid", "k": kc,
+                   "tracks": [{"t": [1, 2, 5], "c": [6.02, 7.01, 8.03], "md": 0.25, "hw": None}, {"t": [4], "c": [11.02]}], "width": None, "bias": bias}
+    # ---- small scope: round trip with the saved text handed over as an open text stream
+    for combo in ((0,), (1,), (4,), (0, 1), (3, 5)):
+        for delim in DELIMS:
+            for sw in (None, 1):
+                tracks = [{"t": SHAPES[s_], "c": SHAPE_COORDS[s_], "md": (None if sw is None else 0.25), "hw": None} for s_ in combo]
+                k = {"route": "array", "cal": "um", "n_lines": 7, "n_pixels": 6, "img_seed": 11, "px_um": 0.07, "lt": 0.125}
+                yield {"stream": "small-scope", "kind": "rt", "k": k, "tracks": tracks, "delim": delim, "sw": sw, "co": True, "io": "handle"}
+
     # ---- small scope: one noise-free spot at a fixed distance from the first / last pixel, every strategy
     n = 0
     for side in ("lo", "hi"):
@@ -1557,25 +1700,12 @@ def cases(tier, rng):
     N = 400 if quick else 4000
     r = rng.fork("c17-rt")
     for i in range(N):
-        sub = r.fork(i)
-        big = sub.chance(0.06 if quick else 0.1)
-        n_lines = sub.randint(210, 420) if big else sub.randint(4, 40)
-        n_pixels = sub.randint(5, 40)
-        k = kspec(sub, n_lines=n_lines, n_pixels=n_pixels)
-        ntr = sub.choice([1, 1, 2, 3, sub.randint(1, 20)])
-        maxp = 200 if big else 15
-        one_point = sub.chance(0.15)
-        tracks = []
-        hw_all = sub.choice([None, None, 1, 2])
-        mdmode = sub.choice(["all", "all", "all", "none", "mixed"])
-        lt_hint = k.get("lt") or 0.0005
-        for n in range(ntr):
-            t, c = B.random_track(sub, n_lines, n_pixels, max_points=1 if one_point else maxp, gap_chance=sub.choice([0.0, 0.3, 0.6]))
-            md = None if mdmode == "none" or (mdmode == "mixed" and sub.chance(0.5)) else md_value(sub, lt_hint)
-            hw = hw_all if not sub.chance(0.1) else sub.choice([None, 0, 1])
-            tracks.append({"t": t, "c": safe_coords(c), "md": md, "hw": hw})
-        yield {"stream": "random", "kind": "rt", "k": k, "tracks": tracks, "delim": sub.choice(DELIMS),
-               "sw": sub.choice([None, None, 0, 1, 2, 5]), "co": sub.choice([True, True, False]), "subseed": i}
+        yield gen_rt_case(r.fork(i), i, quick)
+    # the same, the saved text handed to the importer as an open text stream instead of a path
+    N = 40 if quick else 400
+    r = rng.fork("c17-rt-handle")
+    for i in range(N):
+        yield dict(gen_rt_case(r.fork(i), i, quick), io="handle")
 
     # ---- random: editing programs
     N = 800 if quick else 10000
@@ -1591,6 +1721,22 @@ def cases(tier, rng):
             t, c = B.random_track(sub, n_lines, n_pixels, max_points=15, gap_chance=sub.choice([0.0, 0.3, 0.6]))
             tracks.append({"t": t, "c": c, "md": sub.choice([None, None, 0.0, md_value(sub)]), "hw": sub.choice([None, None, 1])})
         yield gen_program(sub, k, tracks, i)
+    # programs that start by trying to connect a member of the group to a track that is not in the group
+    N = 40 if quick else 400
+    r = rng.fork("c17-prog-foreign")
+    for i in range(N):
+        sub = r.fork(i)
+        n_lines, n_pixels = sub.randint(6, 40), sub.randint(6, 30)
+        k = kspec(sub, n_lines=n_lines, n_pixels=n_pixels, dyadic=sub.chance(0.6))
+        tracks = []
+        for n in range(sub.randint(1, 6)):
+            t, c = B.random_track(sub, n_lines, n_pixels, max_points=15, gap_chance=sub.choice([0.0, 0.3, 0.6]))
+            tracks.append({"t": t, "c": c, "md": sub.choice([None, None, 0.0, md_value(sub)]), "hw": sub.choice([None, None, 1])})
+        a, b = sub.randint(0, len(tracks) - 1), sub.randint(0, len(tracks) - 1)
+        x = ["x", a, sub.randint(0, len(tracks[a]["t"]) - 1), b, sub.randint(0, len(tracks[b]["t"]) - 1), sub.choice(["a", "b"])]
+        c = gen_program(sub, k, tracks, i)
+        c["ops"] = [x] + c["ops"]
+        yield c
 
     # ---- random: hand-written files
     N = 120 if quick else 2000
@@ -1696,18 +1842,99 @@ def cases(tier, rng):
     r = rng.fork("c17-gauss-edge")
     for i in range(N):
         yield gen_edge_case(r.fork(i), i, "gauss")
+    # ---- random: the default track width (track_width=None); half of them through the centroid model
+    N = 16 if quick else 150
+    r = rng.fork("c17-refine-default")
+    for i in range(N):
+        sub = r.fork(i)
+        c = gen_refine_case(sub, i, "refine", px_um=sub.choice([0.1, 0.05, 0.08, 0.15, 0.25]))
+        c["width"], c["assert_truth"] = None, False  # the default window is narrower than the spots: no accuracy claim
+        if c["k"]["cal"] != "pixel" and sub.chance(0.5):
+            npx = c["k"]["n_pixels"]
+            for tr in c["tracks"]:  # as in the centroid stream: keep the rounding to a pixel away from ties
+                tr["c"] = [min(npx - 1.0, max(0.0, x + sub.uniform(0.003, 0.04))) for x in tr["c"]]
+            c["kind"], c["bias"] = "centroid", False
+        yield c
+    # ---- random: groups whose tracks come from several kymographs
+    N = 16 if quick else 150
+    r = rng.fork("c17-refine-multi")
+    for i in range(N):
+        yield gen_multi_kymo_case(r.fork(i), i, "refine")
+    N = 12 if quick else 100
+    r = rng.fork("c17-gauss-multi")
+    for i in range(N):
+        yield gen_multi_kymo_case(r.fork(i), i, "gauss")
+    # ---- random: a lone interior spot fitted with a window narrower than the spot (the whole window is data: both its
+    # ends matter to the fit)
+    N = 12 if quick else 120
+    r = rng.fork("c17-gauss-narrow")
+    for i in range(N):
+        sub = r.fork(i)
+        c = gen_refine_case(sub, i, "gauss", ntr=1)
+        c.update({"window": sub.choice([3, 3, 4]), "strategy": sub.choice(["ignore", "simultaneous", "multiple", "skip"]), "narrow": True, "assert_truth": True})
+        yield c
+    # ---- random: kymographs with more scan lines than pixels per line (line index > number of pixels)
+    N = 15 if quick else 150
+    r = rng.fork("c17-long")
+    for i in range(N):
+        sub = r.fork(i)
+        kind = sub.choice(["gauss", "gauss", "refine", "centroid"])
+        c = gen_refine_case(sub, i, "refine" if kind == "centroid" else kind, long=(40, 8))
+        c["long"] = True
+        if kind == "centroid":
+            npx = c["k"]["n_pixels"]
+            for tr in c["tracks"]:  # as in the centroid stream: keep the rounding to a pixel away from ties
+                tr["c"] = [min(npx - 1.0, max(0.0, x + sub.uniform(0.003, 0.04))) for x in tr["c"]]
+            c["kind"], c["bias"] = "centroid", False
+        yield c
+    # ---- random: the deprecated overlap strategy "multiple" (simultaneous fit without bounds between the peaks)
+    N = 10 if quick else 100
+    r = rng.fork("c17-gauss-multiple")
+    for i in range(N):
+        c = gen_refine_case(r.fork(i), i, "gauss")
+        c["strategy"] = "multiple"
+        yield c
 
 
-def gen_refine_case(sub, i, kind):
+def gen_rt_case(sub, i, quick):
+    big = sub.chance(0.06 if quick else 0.1)
+    n_lines = sub.randint(210, 420) if big else sub.randint(4, 40)
+    n_pixels = sub.randint(5, 40)
+    k = kspec(sub, n_lines=n_lines, n_pixels=n_pixels)
+    ntr = sub.choice([1, 1, 2, 3, sub.randint(1, 20)])
+    maxp = 200 if big else 15
+    one_point = sub.chance(0.15)
+    tracks = []
+    hw_all = sub.choice([None, None, 1, 2])
+    mdmode = sub.choice(["all", "all", "all", "none", "mixed"])
+    lt_hint = k.get("lt") or 0.0005
+    for n in range(ntr):
+        t, c = B.random_track(sub, n_lines, n_pixels, max_points=1 if one_point else maxp, gap_chance=sub.choice([0.0, 0.3, 0.6]))
+        md = None if mdmode == "none" or (mdmode == "mixed" and sub.chance(0.5)) else md_value(sub, lt_hint)
+        hw = hw_all if not sub.chance(0.1) else sub.choice([None, 0, 1])
+        tracks.append({"t": t, "c": safe_coords(c), "md": md, "hw": hw})
+    return {"stream": "random", "kind": "rt", "k": k, "tracks": tracks, "delim": sub.choice(DELIMS),
+           "sw": sub.choice([None, None, 0, 1, 2, 5]), "co": sub.choice([True, True, False]), "subseed": i}
+
+
+def gen_refine_case(sub, i, kind, *, cal=None, px_um=None, sigma=None, ntr=None, long=None):
+    """noise-free spots in the interior of the scan line; the keyword arguments replace the random draw of that
+    quantity (the draw is still made, so the cases of the older streams are what they always were)"""
     n_pixels = sub.randint(30, 50)
     n_lines = sub.randint(8, 16 if kind == "gauss" else 30)
-    cal = sub.choice(["um", "um", "kbp", "pixel"])
+    if long is not None:
+        # a kymograph with MORE scan lines than pixels per line (the usual shape of a recording), tracks of at most
+        # long[1] lines anywhere along it
+        n_lines = n_pixels + sub.randint(3, long[0])
+    cal = [sub.choice(["um", "um", "kbp", "pixel"]), cal][cal is not None]
     k = {"route": "array", "cal": cal, "n_lines": n_lines, "n_pixels": n_pixels, "img": "spots", "px_um": sub.choice([0.1, 0.05, 0.08]), "lt": 0.125, "bg": 0.0}
+    if px_um is not None:
+        k["px_um"] = px_um
     if cal == "kbp":
         k["kbp"] = 0.3 * n_pixels
-    sigma = sub.uniform(1.0, 1.5)
+    sigma = [sub.uniform(1.0, 1.5), sigma][sigma is not None]
     hwid = int(math.ceil(4 * sigma))
-    ntr = sub.choice([1, 1, 2, 3]) if kind == "refine" else sub.choice([1, 1, 2, 3])
+    ntr = [sub.choice([1, 1, 2, 3]), ntr][ntr is not None]
     close = kind == "gauss" and ntr >= 2 and sub.chance(0.5)  # overlapping windows (no accuracy claim then)
     truth, tracks = [], []
     lanes = list(range(ntr))
@@ -1722,6 +1949,10 @@ def gen_refine_case(sub, i, kind):
             centre = lo + width * (lanes[n] + 0.5)
         t0 = sub.randint(0, max(0, n_lines - 4))
         t1 = sub.randint(min(n_lines - 1, t0 + 1), n_lines - 1)
+        if long is not None:
+            if sub.chance(0.75):  # mostly on lines whose index exceeds the number of pixels
+                t0 = sub.randint(min(n_pixels, n_lines - 4), n_lines - 4)
+            t1 = min(n_lines - 1, t0 + sub.randint(1, long[1] - 1))
         ts = list(range(t0, t1 + 1))
         span = 0.6 if (close or ntr > 1) else 3.0
         cs, c = [], centre
@@ -1739,6 +1970,30 @@ def gen_refine_case(sub, i, kind):
     else:
         strategy = sub.choice(["skip", "skip", "ignore", "simultaneous"]) if close else sub.choice(["skip", "ignore", "simultaneous"])
         case.update({"window": hwid if not close else sub.randint(2, hwid), "missing": sub.chance(0.5), "strategy": strategy, "assert_truth": ntr == 1})
+    return case
+
+
+def gen_multi_kymo_case(sub, i, kind):
+    """a group whose tracks come from 2-3 kymographs of different sizes (same calibration unit, pixel size and spot
+    width, so that one track width / window serves all): the tracks of the single-kymograph cases, interleaved in a
+    random order.  With one spot per kymograph the true centre is asserted for every track — each track has to be
+    refined on the image of its own kymograph and come back at its own place in the group."""
+    nk = sub.choice([2, 2, 3])
+    cal = sub.choice(["um", "um", "kbp", "pixel"])
+    px_um = sub.choice([0.1, 0.05, 0.08])
+    sigma = sub.uniform(1.0, 1.5)
+    lone = sub.chance(0.6)
+    parts = [gen_refine_case(sub.fork(n), i, kind, cal=cal, px_um=px_um, sigma=sigma, ntr=1 if lone else sub.choice([1, 2]))
+             for n in range(nk)]
+    slots = [(n, j) for n, p in enumerate(parts) for j in range(len(p["tracks"]))]
+    sub.shuffle(slots)
+    case = dict(parts[0])
+    case["k_more"] = [p["k"] for p in parts[1:]]
+    case["tracks"] = [dict(parts[n]["tracks"][j], kymo=n) for n, j in slots]
+    case["truth"] = [dict(parts[n]["truth"][j], kymo=n) for n, j in slots]
+    case["assert_truth"] = all(len(p["tracks"]) == 1 for p in parts)
+    if kind == "gauss":
+        case["window"] = int(math.ceil(4 * sigma))  # overlaps can only occur between tracks of the same kymograph
     return case
 
 
